@@ -113,6 +113,12 @@ Print Assumptions C17_words_to_bytes.
 Print Assumptions C17_words_to_bits.
 Print Assumptions C17_words_bits_words.
 Print Assumptions C17_words_bytes_words.
+Theorem C17_filler_value : forall b k, N.testbit (filler_value b) k = b && (k <? 64).
+Proof. exact filler_value_bits. Qed.
+Theorem C17_filler_value_word : forall b, filler_value b < 2 ^ 64.
+Proof. exact filler_value_lt. Qed.
+Print Assumptions C17_filler_value.
+Print Assumptions C17_filler_value_word.
 Print Assumptions C17_bit_len.
 Print Assumptions C17_reverse_low.
 Print Assumptions C17_div_round_up.
